@@ -24,6 +24,7 @@ const VrtPath = "github.com/invopop/gobl/internal/vrt"
 func init() {
 	v := VrtPath + "."
 	intrinsics[v+"Symbolic"] = func(fr *frame, args []value) value { return true }
+	intrinsics[v+"Thorough"] = func(fr *frame, args []value) value { return fr.i.eng.Thorough }
 	intrinsics[v+"Int64"] = func(fr *frame, args []value) value {
 		lo, hi := kindRange(types.Int64)
 		return fr.i.inputInt(args[0].(string), types.Int64, lo, hi)
@@ -143,6 +144,13 @@ func init() {
 		return i.mkval(c.Ite(c.And(c.Lt(r, c.Int64(0))), c.Sub(q, c.Int64(1)), q), types.Int64)
 	}
 
+	intrinsics[v+"MulFits"] = func(fr *frame, args []value) value {
+		i := fr.i
+		c := i.run.ctx
+		p := c.Mul(i.term(args[0]), i.term(args[1]))
+		b := i.term(args[2])
+		return i.mkval(c.And(c.Lt(c.Neg(b), p), c.Lt(p, b)), types.Bool)
+	}
 	intrinsics["math.Round"] = func(fr *frame, args []value) value {
 		if f, ok := args[0].(float64); ok {
 			return math.Round(f)
